@@ -91,3 +91,29 @@ def count():
 
 def instrumented():
     return _state["codes"]
+
+
+# ----------------------------------------------------------------------------- CPU-time budget
+# Some non-termination makes no Python call and no Python jump at all: a single C-level regular-expression match that
+# backtracks exponentially. The only clock such a loop advances is the CPU time of the process. ITIMER_VIRTUAL counts
+# the user CPU time THIS process consumes (it does not advance while the machine is busy with other work, so it is a
+# property of the computation, not of the load), and CPython's regex engine polls for signals while it backtracks.
+class CpuBudgetExceeded(StepBudgetExceeded):
+    pass
+
+
+def _on_vtalrm(signum, frame):
+    raise CpuBudgetExceeded("more than the CPU-time budget consumed inside one call")
+
+
+def cpu_start(seconds):
+    import signal
+
+    signal.signal(signal.SIGVTALRM, _on_vtalrm)
+    signal.setitimer(signal.ITIMER_VIRTUAL, float(seconds))
+
+
+def cpu_stop():
+    import signal
+
+    signal.setitimer(signal.ITIMER_VIRTUAL, 0)
